@@ -25,6 +25,7 @@ def truth_of(vals, neg):
 
 
 def run(prog, rep, tier='quick', config='default'):
+    r12f(prog, rep)
     eff = prog.fn(MOD + 'RateLoader::get_effective_usd_cad_rate')
     exact = None
     for cand in prog.product_fns():
@@ -219,3 +220,27 @@ def run(prog, rep, tier='quick', config='default'):
             rep.violation('R12d', k, where=c.where(), fn=fn.name,
                           detail='the automatic rate look-up is not confined to "no explicit rate" (%s) and "currency == USD" (%s): an explicit rate must '
                                  'always win and other currencies must carry their own rate' % (has_rate_guard, has_usd_guard))
+
+
+def r12f(prog, rep):
+    """the direction of a published quote (USD->CAD noon series as is, CAD->USD daily series inverted) is decided by which
+    series the observation belongs to, never by the size of the number: no ordering comparison on a Decimal in the module that
+    parses the published rates (the Canadian dollar was above parity for years; a magnitude test inverts those noon rates)"""
+    RMOD = 'fx::io::remote_rate_loader::'
+    fns = [f for f in prog.product_fns() if f.name.startswith(RMOD) and not mir.is_testsupport(f.name) and 'testlib' not in f.name]
+    if not rep.anchor('module fx::io::remote_rate_loader', fns):
+        return
+    divs = [c for f in fns for c in f.calls if re.search(r'std::ops::Div::div$', c.decl) and any('Decimal' in f.ty.get(a, '') for a in c.arg_locals())]
+    cmps = [(f, c) for f in fns for c in f.calls
+            if re.search(r'cmp::PartialOrd::(lt|le|gt|ge|partial_cmp)$|cmp::Ord::(cmp|min|max|clamp)$', c.decl) and
+            any('rust_decimal::Decimal' in f.ty.get(a, '') for a in c.arg_locals())]
+    if not divs:
+        rep.violation('R12f', 'anchor-lost:reciprocal', detail='anchor lost: the inversion of the CAD->USD daily series (1 / v) in the remote rate parser')
+    elif cmps:
+        f, c = cmps[0]
+        rep.violation('R12f', 'quote-direction-by-series-not-by-value', where=c.where(), fn=f.name,
+                      detail='the parser of the published rates compares a rate by size (%s): if that decides whether a value is inverted, noon rates '
+                             'below 1 (2007-2008, 2010-2013) are turned upside down' % short(c.callee))
+    else:
+        rep.ok('R12f', 'quote-direction-by-series-not-by-value', where=divs[0].where(), fn=divs[0].fn.name,
+               detail='the reciprocal is applied at %d site(s) and no Decimal is compared by size anywhere in the module' % len(divs))
